@@ -22,8 +22,11 @@ def scenarios(rng, tier):
     out.append(fc.Scenario(h, tag, data, e, mode=0o6755, stale=True, uid=1234))
     # write-protected originals: the replacement must not need (or take) a detour through removing them
     out.append(fc.Scenario(h, tag, data, e, mode=0o555, uid=0))
+    # a write-protected directory (the run is root's): it is as it was after a kill at any point, and after the rerun
+    out.append(fc.Scenario(h, tag, data, e, mode=0o644, uid=0, dir_mode=0o555))
     h, tag, data, e = cs[("ar", "dirty")]
     out.append(fc.Scenario(h, tag, data, e, mode=0o444, uid=1234))
+    out.append(fc.Scenario(h, tag, data, e, mode=0o640, uid=0, dir_mode=0o500))
     return out
 
 
